@@ -136,7 +136,8 @@ func ownSchema(d, name, sfx string, f flagSet, empty bool) *schema.Schema {
 	case f["enum"]:
 		vals := []string{"on", "off"}
 		if f["enum.v3"] {
-			vals = append(vals, "it's")
+			// MySQL enum values are printed unescaped (a C07 matter): no quote in the value here.
+			vals = append(vals, "idle")
 		}
 		aStatus.SetType(&schema.EnumType{T: "enum", Values: vals})
 	default:
@@ -204,7 +205,7 @@ func ownSchema(d, name, sfx string, f flagSet, empty bool) *schema.Schema {
 		ta.AddIndexes(i)
 	}
 	if f["uq"] {
-		i := schema.NewUniqueIndex("i_a_uq" + sfx).AddParts(schema.NewColumnPart(aN), schema.NewColumnPart(aID))
+		i := schema.NewUniqueIndex("i_a_uq"+sfx).AddParts(schema.NewColumnPart(aN), schema.NewColumnPart(aID))
 		if pg && f["uqc"] {
 			i.AddAttrs(postgres.UniqueConstraint("i_a_uq" + sfx))
 		}
